@@ -1,10 +1,38 @@
 /-
-  TwProofs.C13 — property theorems (see DESIGN.md, section 6).
+  TwProofs.C13 — errors name the line of the offending construct.
 -/
-import TwModel
-import TwSpec
+import TwProofs.Lemmas.LexSpan
 
 namespace Tw.C13
-open Tw
+open Tw Tw.Lx
+
+/-- the line an error reports for a token (`Token.ErrorLine`) is 1 + the number of line feeds
+    before the token's last byte: the 1-based line on which the token ends — whatever multi-line
+    text, strings, comments or CRLF line ends precede it (every token of every input) -/
+theorem token_error_line (inp : Bytes) (t : Token) (a n : Nat) (h : Covers inp t a n) :
+    t.errorLine = 1 + (inp.take (a + n - 1)).count 10 := by
+  have := h.stop
+  unfold posOf at this
+  have hl : t.pos.endLine = lineOf (inp.take (a + n - 1)).reverse := (Prod.mk.inj this).1
+  unfold Token.errorLine
+  rw [hl, lineOf, List.count_reverse]; omega
+
+/-- parser errors are built from the line of the token they complain about -/
+theorem expectPeek_error_line (p : PS) (t : TT) (h : p.peekIs t = false) :
+    (p.expectPeek t).2.errors = p.errors ++ [PErr.mk p.peek.errorLine "ErrWrongNextToken" [b (tokenString t), b (tokenString p.peek.ty)]] := by
+  simp [PS.expectPeek, h, PS.err]
+
+/-- evaluator errors about an identifier carry the line of the identifier's token -/
+theorem identifier_error_line (fuel : Nat) (c : Ctx) (env : Env) (t : Token) (name : Bytes) (h : env.get name = none) :
+    evalExpr (fuel + 1) c env (.ident t name) = .err "ErrIdentifierNotFound" t.errorLine [name] := by
+  simp [evalExpr, h]
+
+/-- division and modulo by zero are reported on the line of the left operand -/
+theorem division_by_zero_line (l : Int64) (line : Nat) :
+    intInfix (b "/") l 0 line = .err "ErrDivisionByZero" line [] ∧ intInfix (b "%") l 0 line = .err "ErrDivisionByZero" line [] := by
+  constructor <;> (unfold intInfix; simp (config := { decide := true }))
+
+example : (match evaluateStringPure [] (b "line1\n{{ \"a\nb\" }}\n{{-- c\n --}}{{ nosuch }}") [] with
+    | .fail f => f.line == 5 | _ => false) = true := by decide
 
 end Tw.C13
